@@ -12,7 +12,9 @@ EXTENDS Naturals, Sequences, FiniteSets, TLC
 CONSTANTS LeafEq,        \* "identity" | "name"
           ParamBypass,   \* TRUE: a bare Parameter is compiled without the cache   (intended TRUE)
           Cap,           \* capacity of each LRU
-          MaxOps         \* bound on the history length (model checking)
+          MaxOps,        \* bound on the history length (model checking)
+          DegreePins,    \* TRUE: an entry of the identity-keyed degree memo keeps its expression alive (intended TRUE)
+          Acts           \* enabled groups of actions, subset of {"compile", "life"}
 
 E(i, k, n, o) == [id |-> i, kind |-> k, name |-> n, owner |-> o]
 pM == E(1, "par", "p", "M")   xM == E(2, "var", "x", "M")   nM == E(3, "node", "", "M")
@@ -27,8 +29,10 @@ KeyEq(a, b) == IF a.kind = "node" \/ b.kind = "node" THEN a.id = b.id
                ELSE IF LeafEq = "name" THEN a.kind = b.kind /\ a.name = b.name
                ELSE a.id = b.id
 
-VARIABLES gCompile, gGrad, hist, obs, nfill
-vars == <<gCompile, gGrad, hist, obs, nfill>>
+VARIABLES gCompile, gGrad, hist, obs, nfill,
+          at,            \* object lifetime: address of the (deep) objective of each model, 0 = not built / dropped
+          gDeg           \* degree memo keyed by the identity (address) of the expression
+vars == <<gCompile, gGrad, hist, obs, nfill, at, gDeg>>
 NoObs == [q |-> 0, served |-> 0, what |-> "none"]
 
 Find(cache, pred(_)) == IF \E i \in 1..Len(cache) : pred(cache[i]) THEN CHOOSE i \in 1..Len(cache) : pred(cache[i]) /\ \A j \in 1..(i - 1) : ~pred(cache[j]) ELSE 0
@@ -47,7 +51,7 @@ Compile(e) ==
        /\ gCompile' = r.cache
        /\ obs' = [q |-> e.id, served |-> r.served.id, what |-> "compile"]
     /\ hist' = Append(hist, <<"Compile", e.id>>)
-    /\ UNCHANGED <<gGrad, nfill>>
+    /\ UNCHANGED <<gGrad, nfill, at, gDeg>>
 \* compile_gradient(node, [x]): gradient (cached on (expr, wrt)), then compile the gradient expression
 GradCompile(e) ==
     /\ Len(hist) < MaxOps /\ e.kind = "node" /\ e.owner \in {"M", "N"}
@@ -60,7 +64,7 @@ GradCompile(e) ==
           \* the closure must read the parameter of the model that was differentiated
           /\ obs' = [q |-> GradOf(e).id, served |-> r.served.id, what |-> "gradient"]
     /\ hist' = Append(hist, <<"GradCompile", e.id>>)
-    /\ UNCHANGED nfill
+    /\ UNCHANGED <<nfill, at, gDeg>>
 \* compile_hessian(node, [x, y]): every entry of the symbolic Hessian is compiled through the compile cache;
 \* the mixed entry of p * x * y is the parameter leaf
 HessCompile(e) ==
@@ -69,7 +73,7 @@ HessCompile(e) ==
        /\ gCompile' = r.cache
        /\ obs' = [q |-> GradOf(e).id, served |-> r.served.id, what |-> "hessian"]
     /\ hist' = Append(hist, <<"HessCompile", e.id>>)
-    /\ UNCHANGED <<gGrad, nfill>>
+    /\ UNCHANGED <<gGrad, nfill, at, gDeg>>
 \* unrelated expressions pass through the caches (eviction)
 Fill ==
     /\ Len(hist) < MaxOps /\ nfill < Cap + 1
@@ -77,14 +81,53 @@ Fill ==
     /\ gGrad' = Insert(gGrad, [key |-> Filler(nfill), wrt |-> xN, result |-> Filler(nfill)])
     /\ nfill' = nfill + 1 /\ obs' = NoObs
     /\ hist' = Append(hist, <<"Fill", nfill>>)
+    /\ UNCHANGED <<at, gDeg>>
+
+(* ---- object lifetime and the identity-keyed degree memo --------------------------------------
+   compute_degree memoises on the identity of the expression.  Identities (addresses) are reused
+   once an object is collected, so an identity-keyed memo is sound only while its entry keeps the
+   object alive (the code keys on (id(expr), expr): the entry pins the expression).  A model is
+   built, classified, dropped; a later model may be allocated at a freed address.  dM has degree 2,
+   dN degree 1; ids 7 and 8. *)
+Deep == {7, 8}
+Addrs == 1..2
+Occupied == ({at[o] : o \in Deep} \ {0}) \cup (IF DegreePins THEN {gDeg[i].addr : i \in 1..Len(gDeg)} ELSE {})
+Build(o) ==
+    /\ Len(hist) < MaxOps /\ at[o] = 0
+    /\ \E a \in Addrs \ Occupied : at' = [at EXCEPT ![o] = a]
+    /\ obs' = NoObs /\ hist' = Append(hist, <<"Build", o>>)
+    /\ UNCHANGED <<gCompile, gGrad, nfill, gDeg>>
+Drop(o) ==
+    /\ Len(hist) < MaxOps /\ at[o] # 0
+    /\ at' = [at EXCEPT ![o] = 0]
+    /\ obs' = NoObs /\ hist' = Append(hist, <<"Drop", o>>)
+    /\ UNCHANGED <<gCompile, gGrad, nfill, gDeg>>
+Degree(o) ==
+    /\ Len(hist) < MaxOps /\ at[o] # 0
+    /\ LET i == Find(gDeg, LAMBDA ent : ent.addr = at[o]) IN
+       /\ gDeg' = IF i # 0 THEN Touch(gDeg, i) ELSE Insert(gDeg, [addr |-> at[o], of |-> o])
+       /\ obs' = [q |-> o, served |-> IF i # 0 THEN gDeg[i].of ELSE o, what |-> "degree"]
+    /\ hist' = Append(hist, <<"Degree", o>>)
+    /\ UNCHANGED <<gCompile, gGrad, nfill, at>>
+\* unrelated expressions are classified (eviction from the degree memo; their entries sit at other addresses)
+FillDeg ==
+    /\ Len(hist) < MaxOps /\ nfill < Cap + 1
+    /\ gDeg' = Insert(gDeg, [addr |-> 100 + nfill, of |-> 100 + nfill])
+    /\ nfill' = nfill + 1 /\ obs' = NoObs
+    /\ hist' = Append(hist, <<"FillDeg", nfill>>)
+    /\ UNCHANGED <<gCompile, gGrad, at>>
 
 Init == gCompile = <<>> /\ gGrad = <<>> /\ hist = <<>> /\ obs = NoObs /\ nfill = 0
-Next == (\E e \in Exprs : Compile(e)) \/ (\E e \in {nM, nN} : GradCompile(e) \/ HessCompile(e)) \/ Fill
+        /\ at = [o \in Deep |-> 0] /\ gDeg = <<>>
+Next == \/ "compile" \in Acts /\ ((\E e \in Exprs : Compile(e)) \/ (\E e \in {nM, nN} : GradCompile(e) \/ HessCompile(e)) \/ Fill)
+        \/ "life" \in Acts /\ ((\E o \in Deep : Build(o) \/ Drop(o) \/ Degree(o)) \/ FillDeg)
 Spec == Init /\ [][Next]_vars
 
 ById(i) == CHOOSE e \in Exprs : e.id = i
 \* C14: what is served for a query was built from the queried object whenever the artefact depends on
 \* the object (parameters read their own value; variable leaves only contribute an index)
 C14_NoCrossTalk == (obs.what # "none" /\ obs.q <= 6 /\ ById(obs.q).kind # "var") => obs.served = obs.q
-C14_Bounded == Len(gCompile) <= Cap /\ Len(gGrad) <= Cap
+\* the degree reported for an expression is the degree of that expression, never a dead object's
+C14_DegreeOwn == obs.what = "degree" => obs.served = obs.q
+C14_Bounded == Len(gCompile) <= Cap /\ Len(gGrad) <= Cap /\ Len(gDeg) <= Cap
 =============================================================================
